@@ -2834,7 +2834,7 @@ _old_units_for = units_for
 
 def units_for(prop: str):  # noqa: F811
     out = _old_units_for(prop)
-    for u in reset_units():
+    for u in reset_units() + send_signal_units():
         u.obligations = [o for o in u.obligations if o.name.startswith(prop + "/")]
         if u.obligations:
             u.prop = prop
@@ -3001,3 +3001,74 @@ def jump_handle_unit():
 
 ALL.append(jump_handle_unit)
 ALL.append(join_tracking_unit)
+
+
+# ---- hitl.send_signal / approve / reject: the public way a signal enters the engine (C18: persistent unless the caller says otherwise)
+def _send_signal_post(default_persistent, fixed_name=None):
+    def check(ctx):
+        """exactly one SignalStage is queued, addressed to the given execution / stage, carrying the given name and data, and
+        PERSISTENT unless the caller asked for a transient one -- so a signal sent before the stage suspends is buffered."""
+        I = ctx.I
+        if ctx.exc is not None:
+            return [("no-exception", FALSE)]
+        ps = [e for e in ctx.st.effects if e.kind == "queue_push"]
+        goals = [("one-push", z3.BoolVal(len(ps) == 1))]
+        if len(ps) != 1:
+            return goals
+        m = ps[0].data["msg"]
+        goals.append(("is-signal-stage", z3.BoolVal(ps[0].data["cls"] == "SignalStage")))
+        goals.append(("not-delayed", I.ops.is_none(ps[0].data["delay"]) if ps[0].data["delay"] is not SNone else TRUE))
+        for f, a in (("execution_id", "execution_id"), ("stage_id", "stage_id")):
+            goals.append((f"field.{f}", I.ops.eq(I.getattr(m, f), ctx.args[a])))
+        if fixed_name is None:
+            goals.append(("field.signal_name", I.ops.eq(I.getattr(m, "signal_name"), ctx.args["signal_name"])))
+            goals.append(("field.persistent", I.ops.truthy(I.getattr(m, "persistent")) == I.ops.truthy(ctx.args["persistent"])))
+        else:
+            goals.append(("field.signal_name", I.ops.eq(I.getattr(m, "signal_name"), I.module_global("stabilize.hitl", fixed_name))))
+            goals.append(("field.persistent", I.ops.truthy(I.getattr(m, "persistent"))))
+        return goals
+    return check
+
+
+def _send_signal_default(ctx):
+    """the default of send_signal's `persistent` parameter, read from the real signature, is True"""
+    import ast as _ast
+
+    _m, _c, node = ctx.I.index.func("stabilize.hitl:send_signal")
+    kw = {a.arg: d for a, d in zip(node.args.kwonlyargs, node.args.kw_defaults)}
+    d = kw.get("persistent")
+    return [("default-is-persistent", z3.BoolVal(isinstance(d, _ast.Constant) and d.value is True))]
+
+
+def _send_signal_run(ctx):
+    from pyvc.typesys import fresh_value
+    from pyvc.values import SFunc
+
+    I = ctx.I
+    ctx.args["queue"] = T.StoreModel.make_queue(I)
+    for n, t in (("execution_id", ("str",)), ("stage_id", ("str",)), ("signal_name", ("str",)), ("signal_data", ("opt", ("dict", ("val",)))),
+                 ("persistent", ("bool",))):
+        ctx.args[n] = fresh_value(I.st, I.typer, t, n, det=True)
+    m, _c, node = I.index.func("stabilize.hitl:send_signal")
+    f = SFunc(node, m, None, None, None, node.name)
+    return I.call_func(f, [ctx.args[n] for n in ("queue", "execution_id", "stage_id", "signal_name", "signal_data")], {"persistent": ctx.args["persistent"]})
+
+
+def send_signal_units():
+    from pyvc.verify import Unit
+    from .common import STATUS_NAMES
+
+    q = lambda ctx: T.StoreModel.make_queue(ctx.I)
+    from .hcommon import handler_registry
+
+    common = dict(names=STATUS_NAMES, registry=handler_registry(), replayable=False)
+    return [
+        Unit(prop="*", name="L2/hitl.send_signal", func="stabilize.hitl:send_signal", params=[], run=_send_signal_run,
+             obligations=[Obl("C18/send/send_signal", _send_signal_post(True), when="any"), Obl("C18/send/default", _send_signal_default, when="any")], **common),
+        Unit(prop="*", name="L2/hitl.approve", func="stabilize.hitl:approve",
+             params=[("queue", q), ("execution_id", ("str",)), ("stage_id", ("str",)), ("data", ("opt", ("dict", ("val",))))],
+             obligations=[Obl("C18/send/approve", _send_signal_post(True, "APPROVE_SIGNAL"), when="any")], **common),
+        Unit(prop="*", name="L2/hitl.reject", func="stabilize.hitl:reject",
+             params=[("queue", q), ("execution_id", ("str",)), ("stage_id", ("str",)), ("data", ("opt", ("dict", ("val",))))],
+             obligations=[Obl("C18/send/reject", _send_signal_post(True, "REJECT_SIGNAL"), when="any")], **common),
+    ]
